@@ -30,16 +30,26 @@ def _as_bytes_seq(x, what):
 
 
 def s_hexlify(data, *a):
-    if a:
-        raise Unsupported("hexlify with separator")
     if not isinstance(data, SymSeq):
-        return binascii.hexlify(data)
+        return binascii.hexlify(data, *a)
+    sep = None
+    if a:
+        sep = a[0]
+        if len(a) > 1 and a[1] != 1:
+            raise Unsupported("hexlify with bytes_per_sep")
+        sep = SymSeq.of(sep if isinstance(sep, (bytes, bytearray)) else str(sep).encode()) if not isinstance(sep, SymSeq) else sep
+        if len(sep.items) != 1 or not isinstance(sep.items[0], int):
+            raise Unsupported("hexlify separator")
+        if data.has_blob():
+            raise Unsupported("hexlify with separator over a blob")
     if data.kind != "bytes":
         raise TypeError("a bytes-like object is required, not 'str'")
     if data.stripnul:
         raise Unsupported("hexlify of rstrip'ed field")
     out = []
-    for u in data.items:
+    for k, u in enumerate(data.items):
+        if sep is not None and k:
+            out.append(sep.items[0])
         if isinstance(u, Blob):
             if u.view != "raw":
                 raise Unsupported("hexlify of a hex-view blob")
